@@ -160,6 +160,10 @@ def _subs(tier, prop):
         # are still reserved then); with a slow consumer the finished part still sits in its output
         S.append(mk_sub('F5-resource-processor-fed-at-the-finish-instant', serial('P', 2, res={'r': 1}) | {'pools': {'r': 1}}, mons, pre=['c0 == c1', 'c1 >= 1']))
         S.append(mk_sub('F7-buffer-into-batcher-size2', buffer_into_batcher(2), mons, zero=['c0', 'd1'], ranges={'b0': (0, 3), 'b1': (0, 3)}))
+        # the input of a machine is blocked and unblocked again while its finished part still waits for the slow consumer
+        S.append(mk_sub('F8-input-unblocked-while-the-finished-part-is-blocked', with_ops(BLOCKED_FINISHED, [
+            {'k': 'block', 'dev': 'p1', 't': 't0'}, {'k': 'unblock', 'dev': 'p1', 't': 't1'}]), mons + ['wakeup'],
+            pre=['2 * c1 < t0', 't0 < t1', 't1 < c1 + c2']))
     elif prop == 'C03':
         mons = ['wakeup']
         for kinds in (['P', 'B'] if q else ['H', 'P', 'B', 'HP', 'PB', 'BP']):
@@ -201,7 +205,7 @@ def _subs(tier, prop):
         S.append(mk_sub('F7-batches-into-batcher-slow-consumer', batches_into_batcher(), mons, zero=['cs', 'c0']))
         if not q:
             S.append(mk_sub('F7-batches-into-batcher-n3', batches_into_batcher((3, 3, 3)), mons, zero=['cs']))
-        bb = {'devices': [{'k': 'source', 'name': 'src', 'cycle': 0, 'parts': 6},
+        bb = {'devices': [{'k': 'source', 'name': 'src', 'cycle': 0, 'parts': 4},
                           {'k': 'batcher', 'name': 'bat', 'up': ['src'], 'size': 2},
                           {'k': 'buffer', 'name': 'buf', 'up': ['bat'], 'delay': 0, 'cap': 3},
                           {'k': 'proc', 'name': 'p1', 'up': ['buf'], 'cycle': 'c1'},
@@ -247,6 +251,7 @@ def _subs(tier, prop):
         S.append(mk_sub('F7-refused-batch-at-the-head-of-a-buffer', two, mons))
         S.append(mk_sub('F7-batch-backlog-cap5', batch_backlog_in_buffer(5, (2, 2, 2)), mons + ['census'], zero=['cs', 'c0']))
         S.append(mk_sub('F7-batch-backlog-cap4-mixed', batch_backlog_in_buffer(4, (3, None, 2)), mons + ['census'], zero=['cs']))
+        S.append(mk_sub('F7-batch-backlog-unlimited-buffer', batch_backlog_in_buffer(None, (3, None, 2)), mons + ['census'], zero=['cs', 'c0']))
         for size in (None, 2):
             S.append(mk_sub(f'F7-buffer-into-batcher-size{size}', buffer_into_batcher(size), mons + ['census'],
                             zero=['c0', 'd1', 'cs'] if q else ['c0'], ranges={'b0': (0, 3), 'b1': (0, 3), 'd1': (0, L.T)}))
@@ -290,6 +295,10 @@ def _subs(tier, prop):
         S.append(mk_sub('F1-P-two-offsets-for-one-cycle', with_ops(serial('P', 2), [
             {'k': 'offset', 'dev': 'p1', 't': 0, 'amount': 'o1', 'prio': 'high'}, {'k': 'offset', 'dev': 'p1', 't': 0, 'amount': 'o2', 'prio': 'high'}]),
             mons, zero=['cs', 'c0'], ranges={'o1': (-L.T, L.T), 'o2': (-L.T, L.T)}))
+        spo = serial('PH', 2)
+        spo['devices'][1]['pre_offset'] = 'o1'
+        spo['devices'][2]['pre_offset'] = 'o2'
+        S.append(mk_sub('F1-PH-offsets-requested-before-the-start', spo, mons, zero=['cs', 'c0'], ranges={'o1': (-L.T, L.T), 'o2': (-L.T, L.T)}))
         S.append(mk_sub('F1-P-offset', with_ops(serial('P', 2), [
             {'k': 'offset', 'dev': 'p1', 't': 0, 'amount': 'o1', 'prio': 'high'}]), mons, zero=['cs'],
             ranges={'o1': (-L.T, L.T)}))
@@ -309,6 +318,11 @@ def _subs(tier, prop):
         S.append(mk_sub('F6-shutdown-armfail-restore', _faults_basic(1, [
             {'k': 'shutdown', 'dev': 'p1', 't': 't0'}, {'k': 'armfail', 'dev': 'p1', 't': 't0', 'delay': 'd1'},
             {'k': 'restore', 'dev': 'p1', 't': 't2'}]), mons, zero=['cs'], pre=['t0 + d1 <= t2']))
+        # a shutdown callback of the user repairs the machine on the spot (restore inside the shutdown, down for zero time)
+        for kind in ('fail', 'shutdown'):
+            sp = _faults_basic(2, [{'k': kind, 'dev': 'p1', 't': 't0'}])
+            sp['devices'][1]['repair_on_the_spot'] = True
+            S.append(mk_sub(f'F6-{kind}-repaired-on-the-spot', sp, mons + ['cycle'], zero=['cs']))
         S.append(mk_sub('F6-double-shutdown-double-restore', _faults_basic(1, [
             {'k': 'shutdown', 'dev': 'p1', 't': 't0'}, {'k': 'shutdown', 'dev': 'p1', 't': 't1'},
             {'k': 'restore', 'dev': 'p1', 't': 't2'}, {'k': 'restore', 'dev': 'p1', 't': 't3'}]), mons, zero=['cs', 'c0'] if q else ['cs'],
@@ -604,6 +618,10 @@ SPLITS = {   # heavy analyses are case-split by the order pattern of these expre
     'F6-shutdown-fail-restore': [('t0', 'c0'), ('t0 + d1', 'c0 + c1')],
     'F6-shutdown-armfail-restore': [('t0', 'c0'), ('t0 + d1', 'c0 + c1')],
     'F5-fail-while-down-holding': [('t0', 'c0'), ('t0 + d1', 'c0 + c1')],
+    'F7-size1-inBB': [('b0', 'b1'), ('b0', '2')],
+    'F7-size1-in1B1': [('b1', '1'), ('b1', '3')],
+    'F2-fan-in-two-producers-same-instant': [('c0', 'c1'), ('2 * c0', 'c1')],
+    'F3-gates-n3': [('c1', 'c2'), ('c0', 'c1')],
 }
 
 
